@@ -26,8 +26,8 @@ type atomicScn struct {
 	Kinds       []string `json:"kinds"` // per file: new | replace
 	NToks       []int    `json:"ntoks"` // per file: number of tokens
 	Recv        string   `json:"recv"`
-	Mode        string   `json:"mode"`  // freeze | cut | cutup | kill
-	N           int      `json:"n"`     // cut: byte offset; kill: unit number
+	Mode        string   `json:"mode"`  // freeze | cut | cutup | kill | flip
+	N           int      `json:"n"`     // cut: byte offset; kill: unit number; flip: byte offset counted from the end of the file list
 	Batch       bool     `json:"batch"` // reference sender reads all requests before answering
 	Delay       int      `json:"delay"` // kill: microseconds to wait after the last unit before SIGKILL
 	SnapOnDeath bool     `json:"snap_on_death"`
@@ -62,16 +62,17 @@ type atomicFinal struct {
 }
 
 type atomicObs struct {
-	ID      int           `json:"id"`
-	Recv    string        `json:"recv"`
-	Mode    string        `json:"mode"`
-	Kinds   []string      `json:"kinds"`
-	NToks   []int         `json:"ntoks"`
-	Events  []atomicEvent `json:"events"`
-	Final   atomicFinal   `json:"final"`
-	Bytes   int64         `json:"bytes"` // bytes the reference sender wrote after the handshake
-	UpBytes int64         `json:"upbytes"`
-	Weak    bool          `json:"weak"` // judge atomicity only (the session may legitimately fail at the long name)
+	ID        int           `json:"id"`
+	Recv      string        `json:"recv"`
+	Mode      string        `json:"mode"`
+	Kinds     []string      `json:"kinds"`
+	NToks     []int         `json:"ntoks"`
+	Events    []atomicEvent `json:"events"`
+	Final     atomicFinal   `json:"final"`
+	Bytes     int64         `json:"bytes"` // bytes the reference sender wrote after the handshake
+	UpBytes   int64         `json:"upbytes"`
+	ListBytes int64         `json:"listbytes"` // ... of which the file list
+	Weak      bool          `json:"weak"`      // judge atomicity only (the session may legitimately fail at the long name)
 	// Unlinked: listed paths that had previous content and were seen DELETED or MOVED AWAY by inotify during the
 	// session (an atomic replacement is a rename OVER the path: the watcher sees moved_to for it, never delete)
 	Unlinked []string        `json:"unlinked"`
@@ -164,6 +165,7 @@ func atomicSnapshot(dest string, files []atomicFile) (snap []string, lnk string,
 type cutWriter struct {
 	w       io.Writer
 	limit   int64 // <0: no limit
+	flipAt  int64 // <0: none; otherwise one bit of the byte at this offset is inverted in transit
 	n       int64
 	tripped bool
 	onTrip  func()
@@ -184,6 +186,11 @@ func (c *cutWriter) Write(p []byte) (int, error) {
 			c.onTrip()
 		}
 		return k, io.ErrClosedPipe
+	}
+	if c.flipAt >= c.n && c.flipAt < c.n+int64(len(p)) {
+		q := append([]byte(nil), p...)
+		q[c.flipAt-c.n] ^= 0x10
+		p = q
 	}
 	n, err := c.w.Write(p)
 	c.n += int64(n)
@@ -345,7 +352,7 @@ func atomicHandler(w *workerCtx, line []byte) (any, error) {
 	}
 	defer p.End.Close()
 	// instrument our output (after the handshake): count / cut
-	cw := &cutWriter{limit: -1}
+	cw := &cutWriter{limit: -1, flipAt: -1}
 	if s.Mode == "cut" {
 		cw.limit = int64(s.N)
 		cw.onTrip = func() { p.End.Out.CloseWrite() }
@@ -365,6 +372,10 @@ func atomicHandler(w *workerCtx, line []byte) (any, error) {
 	p.In = &wirekit.R{R: cr}
 
 	p.Out.EncodeList(fl, lo, wirekit.NoCompression)
+	obs.ListBytes = cw.n
+	if s.Mode == "flip" {
+		cw.flipAt = cw.n + int64(s.N)
+	}
 	var sortedNames []string
 	for _, e := range fl.SortedEntries() {
 		sortedNames = append(sortedNames, e.Name)
@@ -440,6 +451,20 @@ func atomicHandler(w *workerCtx, line []byte) (any, error) {
 			}
 		}
 	}
+	if s.Mode == "flip" {
+		// an inverted bit can turn a length into a larger one: the receiver then waits for bytes that will never be
+		// sent while the reference sender waits for its next request.  Once the whole session is parked, the
+		// connection is closed (a peer that went away), as after a cut.
+		served := make(chan struct{})
+		defer close(served)
+		go func() {
+			select {
+			case <-served:
+			case <-idleAfter(500 * time.Millisecond):
+				p.End.Out.CloseWrite()
+			}
+		}()
+	}
 	serr := rs.Serve()
 	if serr == nil {
 		serr = p.Finish()
@@ -470,7 +495,9 @@ func atomicHandler(w *workerCtx, line []byte) (any, error) {
 	default:
 		fin.Result = "ok"
 	}
-	if s.Mode == "cut" || s.Mode == "cutup" {
+	if s.Mode == "flip" {
+		fin.Mode = "damaged"
+	} else if s.Mode == "cut" || s.Mode == "cutup" {
 		fin.Mode = "error"
 		if s.Mode == "cut" {
 			fin.DMin = unitsDone
